@@ -19,6 +19,7 @@ THEOREMS = [
     "O2P.Diagram.parse_ok_tail",
     "O2P.Diagram.parse_ok_core",
     "O2P.Diagram.runs_types",
+    "O2P.Diagram.grammar_complete",
 ]
 PLACEHOLDER = re.compile(r"\|\|\||DUMMY|^LOOP_\d+$|^LOOP$")
 
